@@ -4,10 +4,17 @@
 //! `--cfg btdht_verif`) on tokio's paused clock and writes an NDJSON trace that TLC validates
 //! against the trace specifications under /verif/spec/trace.
 
+mod benc;
 mod comp;
+mod node;
+mod sim;
 mod util;
+mod wire;
 
 use std::process::ExitCode;
+
+#[global_allocator]
+static ALLOC: wire::Counting = wire::Counting;
 
 fn main() -> ExitCode {
     let args: Vec<String> = std::env::args().collect();
@@ -22,6 +29,10 @@ fn main() -> ExitCode {
         "table" => comp::table(&opts),
         "txn" => comp::txn(&opts),
         "bep42" => comp::bep42(&opts),
+        "node" => node::run(&opts),
+        "wire" => if opts.get("in").is_some() { wire::wire_replay(&opts) } else { wire::wire(&opts) },
+        "decode" => wire::decode_worker(&opts),
+        "corpus" => wire::corpus(&opts),
         other => {
             eprintln!("unknown sub-command {other}");
             return ExitCode::from(2);
